@@ -1,6 +1,6 @@
 (* C08 - fits are equivariant under relabelling and changes of coordinates *)
 From Coq Require Import QArith List Bool Arith Permutation.
-From TW Require Import GJModel LSQ Rscale Shift Weights Clip ClipPerm Equivariance Unique.
+From TW Require Import GJModel LSQ Rscale Shift Weights Clip ClipPerm Equivariance Unique EquivSim.
 Import ListNotations.
 Open Scope Q_scope.
 
@@ -21,6 +21,12 @@ Theorem C08_general_fit_perm_params : forall l l' p q p' q' a b c,
   (qnth q' 0 == qnth q 0 /\ qnth q' 1 == qnth q 1 /\ qnth q' 2 == qnth q 2).
 Proof. exact general_fit_perm_params. Qed.
 Print Assumptions C08_general_fit_perm_params.
+(* parameter level for the similarity family (uses uniqueness when the cross determinant does not vanish) *)
+Theorem C08_rscale_fit_perm_params : forall l l', Permutation l l' -> 0 < sw l -> 0 < q2 l -> ~ detc l == 0 ->
+  sflip (model l') = sflip (model l) /\ sa (model l') == sa (model l) /\ sb_ (model l') == sb_ (model l) /\
+  s1 (model l') == s1 (model l) /\ s2 (model l') == s2 (model l).
+Proof. exact rscale_fit_perm_params. Qed.
+Print Assumptions C08_rscale_fit_perm_params.
 Theorem C08_shift_fit_perm : forall l l', Permutation l l' ->
   fst (fit_shift l) == fst (fit_shift l') /\ snd (fit_shift l) == snd (fit_shift l').
 Proof. exact shift_fit_perm. Qed.
@@ -86,9 +92,10 @@ Theorem C08_similarity : forall (refl : bool) m n l a b c d e g, ~ (m * m + n * 
 Proof. exact ssr_tot_similarity. Qed.
 Print Assumptions C08_similarity.
 
-(* FULL (not proved here): uniqueness of the minimiser for non-degenerate data, which turns the
-   objective-level statements above into equalities of the fitted parameters for the general and the
-   similarity families; it is covered numerically by the correspondence (metamorphic pairs on the
+(* Uniqueness of the minimiser (Props/C06: C06_general_unique, C06_rscale_unique) turns the objective-level
+   statements into equalities of the fitted parameters; this is carried out above for permutations of the general
+   and the similarity families. For weight scaling / centre / similarity transforms the parameter-level
+   statements follow the same way and are covered numerically by the correspondence (metamorphic pairs on the
    implementation + agreement of every run with the exact model). *)
 
 (* non-vacuity *)
